@@ -14,7 +14,16 @@ Sub-claims (DESIGN §4 C20):
      any name of dir(result) reports: after EVERY operation of a sequence every public name equals, bit for bit, the snapshot of a pristine twin
      built from the same input and never operated on, and the identities of (a) hold (seeded defect C10g: plot(which="bode", errors=True, sigma=k)
      scaled the cached Hxy_mag_error / Hxy_deg_error / Hxy_rad_error in place).
-(c), (d) are Python object protocol: they are decided by the oracle on the real objects only.
+  e  what a query hands out is the caller's to modify: the frame of to_dataframe() and the array of get_measurement() (and the list of __dir__()) are
+     built anew by every call of the unchanged library (np.shares_memory of every block / column / index of an exported frame and of every
+     get_measurement output against every array the result holds, the query array and the outputs of other calls: none), so after the CALLER edits
+     them in place - scales / drops / renames / swaps columns, overwrites rows, replaces or renames the index, appends / drops rows, cleans non-finite
+     cells, writes through writable public buffers; overwrites the returned array and its own query array - the next export / query of the result, of a
+     copy.copy, a deepcopy and a pickle clone is still exactly the per-bin arrays (predicate of (c)) / the interpolant of the pristine table (predicate
+     of (b)), and every attribute of every one of them still equals the pristine twin (predicate of (d)).  The attribute arrays themselves ARE the
+     cached objects by design and are never written to by the oracle (seeded defect C20h: to_dataframe() memoised the frame in the lazy cache and
+     returned the same mutable object to every later call, also through copy.copy - shared cache dictionary - and deepcopy / pickle).
+(c), (d), (e) are Python object protocol: they are decided by the oracle on the real objects only.
 """
 from __future__ import annotations
 
@@ -169,9 +178,15 @@ RULE = ("result = (kind in full/banded/equal-K via Lmin=N/equal-K via band/singl
         "sequence, figure-making calls from a budget (~40 per quick run, figures closed at once): a plot stream over auto / cross x multi-bin / single-bin / "
         "uniform-K / dead-channel-or-other results, each with one call per applicable `which` WITH an error band of sigma in {0.5, 2, 3} (bode: all eight "
         "(deg, unwrap, dB) settings over the stream) + calls from the whole option space (errors, sigma in {0.5, 1, 2, 3}, dB, deg, unwrap, own Axes, ylabel, "
-        "color), mixed into random sequences of the other operations; distinct by (kind, mode, check, attribute / query class / op tuple / plot options); "
+        "color), mixed into random sequences of the other operations; the CALLER-EDIT operations dfmut (export, in-place edit(s) of the returned frame out of "
+        "FRAME_EDITS = scale / drop / del / pop / rename / swap or permute names / overwrite rows / loc, iloc column / replace or rename index / reset_index / "
+        "reverse / add column, row / drop row / truncate / fillna / all-zero / writable public buffers, export again from the result [second frame edited too], "
+        "copy.copy, deepcopy, pickle clone; first frame asked of the result or of a shallow copy), qmut (array get_measurement, returned array and query array "
+        "overwritten, same query again on the result and its three clones) and dirmut (list of __dir__() emptied) in every random sequence's alphabet, plus a "
+        "caller-edit stream per run over auto / cross x multi-bin / single-bin / uniform-K / dead channel / other kinds that goes through all of FRAME_EDITS; "
+        "distinct by (kind, mode, check, attribute / query class / op tuple / plot options); "
         "non-trivial = the quantity compared is non-zero on at least one bin (identities), nf >= 2 (interpolation), a sequence with >= 1 "
-        "copy/pickle step, a query on a table with a non-finite entry, a plot() call that returned a figure")
+        "copy/pickle step, a query on a table with a non-finite entry, a plot() call that returned a figure, a frame edit that changed the frame")
 
 U = 2.0 ** -53
 LIBERR = (Exception, SystemExit)     # some schedulers call sys.exit() on an empty plan: an error outcome like any other here
@@ -197,7 +212,10 @@ KINDS = ["full", "full", "band", "equalK-Lmin", "equalK-band", "single", "single
 # Forced sequences may pin the argument: "query:<name>", "read:<name>", "pickle:<protocol>".
 # `plotx` = plot() with a `which` that draws nothing for this result kind (or an unknown one): it still evaluates the method's dispatch table;
 # figure-making plot() calls ("plot:<which=..,errors=..,sigma=..,...>") are inserted per case from a budget (run_case(..., plots=k)).
-OPS = ["read", "read", "read", "copy", "deepcopy", "pickle", "df", "meas", "len", "repr", "dir", "query", "query", "query", "rms", "rms", "plotx"]
+# `dfmut` / `qmut` / `dirmut` = the caller EDITS what to_dataframe() / get_measurement() / __dir__() handed out, then asks again - of the result and of
+# a shallow copy, a deep copy and a pickle clone (op_dfmut, op_qmut, op_dirmut); forced form "dfmut:<edit>+<edit>[@copy]", "qmut:<name>:<edit>:<edit>"
+OPS = ["read", "read", "read", "copy", "deepcopy", "pickle", "df", "meas", "len", "repr", "dir", "query", "query", "query", "rms", "rms", "plotx",
+       "dfmut", "qmut", "dirmut"]
 # aliases that may share one array in the lazy cache: a write through one name shows up under the others
 ALIASES = [("Gxx", "psd", "G", "Gyy", "Gxy"), ("Gxy", "csd"), ("Hxy", "tf"), ("Gxx_dev", "Gyy_dev"), ("Gxx_error", "Gyy_error"),
            ("XX", "XX_mean", "YY_mean"), ("YY", "YY_mean"), ("M2", "XY_M2")]
@@ -209,6 +227,8 @@ PLOT_KIND = {"psd": "auto", "asd": "auto", "coh": "cross", "csd": "cross", "cf":
 SIGMAS = [0.5, 1, 2, 3]
 # the dedicated plot stream of the oracle: (kind, cross) -> every result class the property quantifies over gets figure-making plot() calls
 PLOT_STREAM = [("full", False), ("full", True), ("single", False), ("single", True), ("equalK-Lmin", False), ("equalK-Lmin", True), (None, False), (None, True)]
+EDIT_STREAM = [("full", False), ("full", True), ("single", False), ("single", True), ("equalK-Lmin", False), ("equalK-Lmin", True), ("dead", True), (None, False),
+               (None, True)]
 PLOTS_CROSS, PLOTS_AUTO = 6, 2          # figure-making calls per result of the stream (cross: bode deg / bode rad / coh / csd / cf + 1 random)
 RMS_FORMS = ["none", "inside", "inside", "reversed", "wide", "degenerate", "grid", "list", "array", "nan"]
 
@@ -762,7 +782,8 @@ def data_keys(res) -> List[str]:
     return list(d.keys()) if isinstance(d, dict) else []
 
 
-def check_dataframe(P: C.Part, res, case: Dict[str, Any], tag: str, names: List[str], ref: Optional[Dict[str, Any]] = None) -> None:
+def check_dataframe(P: C.Part, res, case: Dict[str, Any], tag: str, names: List[str], ref: Optional[Dict[str, Any]] = None) -> Any:
+    """the export predicate; returns the frame to_dataframe() handed out (None if it raised) so that a caller can go on and edit it"""
     rec = case["recipe"]
     kind, mode = rec["kind"], ("cross" if res.iscsd else "auto")
     sig = {"check": "to_dataframe", "mode": mode}
@@ -772,14 +793,18 @@ def check_dataframe(P: C.Part, res, case: Dict[str, Any], tag: str, names: List[
             df = res.to_dataframe()
     except Exception as ex:  # noqa
         add_violation(P, f"{tag}: to_dataframe() raised {ex!r} (nf={res.nf}, kind={kind})", dict(sig, problem="raises"), case)
-        return
+        return None
     f = np.asarray(read(res, "f"))
     nf = len(f)
     P.nontrivial.add((kind, mode, "df", min(nf, 3)))
     P.hit(f"df.{kind}")
-    if df.index.name != "f" or len(df) != nf or not bits_equal(np.asarray(df.index.to_numpy(), dtype=float), np.asarray(f, dtype=float)):
+    try:
+        index_ok = df.index.name == "f" and len(df) == nf and bits_equal(np.asarray(df.index.to_numpy(), dtype=float), np.asarray(f, dtype=float))
+    except Exception:  # noqa  (an index that is not even numeric)
+        index_ok = False
+    if not index_ok:
         add_violation(P, f"{tag}: to_dataframe() index is {df.index.name!r} with {len(df)} rows; expected the {nf} frequencies `f`", dict(sig, problem="index"), case)
-        return
+        return df
     expected = {}
     for n in sorted((set(names) - {"G"}) | set(DATA_FIELDS) | set(data_keys(res))):      # G is an alias of psd outside the listed names: optional
         if n == "f":
@@ -806,7 +831,7 @@ def check_dataframe(P: C.Part, res, case: Dict[str, Any], tag: str, names: List[
     if missing or extra or len(cols) != len(set(cols)):
         add_violation(P, f"{tag}: to_dataframe() columns differ from the per-bin arrays: missing {missing}, not a per-bin array attribute {extra} (nf={nf})",
                       dict(sig, problem="columns", missing=missing[:3], extra=extra[:3]), case)
-        return
+        return df
     for c in cols:
         P.cases += 1
         col = df[c].to_numpy()
@@ -817,6 +842,312 @@ def check_dataframe(P: C.Part, res, case: Dict[str, Any], tag: str, names: List[
         if not ok:
             add_violation(P, f"{tag}: to_dataframe() column {c!r} ({desc(col)}) does not carry the values of attribute {c} ({desc(v)})",
                           dict(sig, problem="values", dtype=str(v.dtype)), case, {"column": c})
+    return df
+
+
+# ---------------------------------------------------------------- what a query hands out is the caller's to modify
+# The frame of to_dataframe() and the array of get_measurement() are built anew by every call of the unchanged library (measured: over every result
+# kind, no block / column / index of an exported frame and no get_measurement output shares memory - np.shares_memory - with an array the result
+# holds in `_data` / `_cache`, with the query array, or with the frame / output of another call).  They are the caller's objects: whatever the caller
+# does to them, a later export / query of the result - or of a copy / deep copy / pickle clone of it - is still the per-bin arrays, and every
+# attribute still equals the pristine twin's.  (The attribute arrays themselves ARE the cached objects by design: they are never written to here.)
+FRAME_EDITS = ["scale", "scale-inplace", "drop", "del", "pop", "rename", "swap-names", "permute-names", "row0", "rows-nan", "loc-col", "iloc-col",
+               "index", "index-name", "reset-index", "reverse", "add-col", "insert-col", "add-row", "drop-row", "truncate", "fillna", "all-zero",
+               "values"]
+OUT_EDITS = ["nan", "scale", "zero", "negate", "reverse", "sort"]
+QUERY_EDITS = ["nan", "scale", "reverse", "zero", "keep"]
+
+
+def frame_state(df) -> Tuple[Any, ...]:
+    """a comparable summary of a frame (labels, index, values as bytes) - only used to MEASURE whether an edit changed anything"""
+    try:
+        parts = [tuple(str(c) for c in df.columns), str(df.index.name), tuple(repr(v) for v in df.index.tolist())]
+        for blk in getattr(getattr(df, "_mgr", None), "blocks", ()) or ():
+            a = np.asarray(blk.values)
+            parts.append(repr(a.tolist()) if a.dtype == object else (str(a.dtype), a.shape, a.tobytes()))
+        return tuple(parts)
+    except Exception:  # noqa
+        return (id(df), "unknown")
+
+
+def edit_frame(df, rng: np.random.Generator, how: str) -> str:
+    """ONE in-place edit of a frame the caller owns, as analysis code does them (unit conversion, dropping / renaming columns, overwriting rows,
+    re-indexing, cleaning non-finite cells, writing into the buffers).  Returns a description; an edit that pandas refuses is described as such
+    (what pandas lets a caller do with the caller's own frame is not this property)"""
+    cols = list(df.columns)
+
+    def kind_of(c) -> str:
+        try:
+            return df[c].dtype.kind
+        except Exception:  # noqa
+            return "?"
+
+    num = [c for c in cols if kind_of(c) in "fc"]
+    live = []
+    for c in num:
+        try:
+            a = df[c].to_numpy()
+            if np.any(np.isfinite(a) & (a != 0)):
+                live.append(c)
+        except Exception:  # noqa
+            pass
+    pick = lambda xs: xs[int(rng.integers(0, len(xs)))]
+    n = len(df)
+    try:
+        with quiet():
+            if how in ("scale", "scale-inplace"):
+                c = pick(live or num or cols)
+                k = [1e9, -1.0, 2.0, 1e-3, 0.0][int(rng.integers(0, 5))]
+                if how == "scale":
+                    df[c] = df[c] * k
+                else:
+                    df[c] *= k
+                return f"{how}({c} x {k:g})"
+            if how in ("drop", "del", "pop"):
+                c = pick(cols)
+                if how == "drop":
+                    df.drop(columns=[c], inplace=True)
+                elif how == "del":
+                    del df[c]
+                else:
+                    df.pop(c)
+                return f"{how}({c})"
+            if how == "rename":
+                c = pick(cols)
+                df.rename(columns={c: f"{c}_mine"}, inplace=True)
+                return f"rename({c}->{c}_mine)"
+            if how == "swap-names":
+                a = pick(live or num or cols)
+                same = [c for c in cols if c != a and kind_of(c) == kind_of(a)] or [c for c in cols if c != a]
+                b = pick(same)
+                df.rename(columns={a: b, b: a}, inplace=True)
+                return f"swap-names({a}<->{b})"
+            if how == "permute-names":
+                df.columns = [cols[int(j)] for j in rng.permutation(len(cols))]
+                return "permute-names"
+            if how == "row0":
+                df.iloc[0] = 0
+                return "row0(iloc[0]=0)"
+            if how == "rows-nan":
+                i = int(rng.integers(0, n))
+                df.loc[df.index[i], num] = np.nan
+                return f"rows-nan(row {i} of the float/complex columns)"
+            if how == "loc-col":
+                c = pick(live or num or cols)
+                df.loc[:, c] = 0.5
+                return f"loc-col({c}=0.5)"
+            if how == "iloc-col":
+                j = int(rng.integers(0, len(cols)))
+                df.iloc[:, j] = 0
+                return f"iloc-col({cols[j]}=0)"
+            if how == "index":
+                df.index = np.arange(n, dtype=float) + 1e6
+                return "index(replaced)"
+            if how == "index-name":
+                if rng.random() < 0.5:
+                    df.index.name = "freq"
+                else:
+                    df.rename_axis("freq", inplace=True)
+                return "index-name(freq)"
+            if how == "reset-index":
+                df.reset_index(inplace=True)
+                return "reset-index"
+            if how == "reverse":
+                df.sort_index(ascending=False, inplace=True)
+                return "reverse(sort_index descending)"
+            if how == "add-col":
+                df["extra_mine"] = 1.0
+                return "add-col(extra_mine)"
+            if how == "insert-col":
+                df.insert(0, "aaa_mine", np.arange(n))
+                return "insert-col(aaa_mine)"
+            if how == "add-row":
+                df.loc[float(np.max(df.index.to_numpy())) + 1.0] = 0
+                return "add-row"
+            if how == "drop-row":
+                df.drop(index=df.index[int(rng.integers(0, n))], inplace=True)
+                return "drop-row"
+            if how == "truncate":
+                df.drop(index=df.index[1:], inplace=True)
+                return "truncate(first row kept)"
+            if how == "fillna":
+                df.fillna(0.0, inplace=True)
+                for c in num:                               # (not frame-wide: DataFrame.replace chokes on the object column of start vectors)
+                    df[c] = df[c].replace([np.inf, -np.inf], 0.0)
+                return "fillna/replace(non-finite -> 0)"
+            if how == "all-zero":
+                df.iloc[:, :] = 0
+                return "all-zero(iloc[:, :]=0)"
+            if how == "values":
+                hit = 0
+                # only through the PUBLIC handles and only where pandas hands out a writable buffer (without copy-on-write: views of the frame's
+                # blocks; with copy-on-write, pandas >= 3: read-only views or private copies, so that nothing of the frame changes) - the block
+                # buffers behind pandas' back (`_mgr`) are not touched: a library may rely on pandas' copy-on-write protection
+                handles = [df.values, df.index.values] + [df[c].values for c in cols] + [df[c].to_numpy() for c in cols]
+                for a in handles:
+                    if isinstance(a, np.ndarray) and a.flags.writeable and a.dtype.kind in "fciu" and a.size:
+                        a[...] = np.nan if a.dtype.kind in "fc" else -7
+                        hit += 1
+                return f"values({hit} writable public buffers overwritten)"
+    except Exception as ex:  # noqa
+        return f"{how}(refused by pandas: {type(ex).__name__})"
+    return f"{how}(unknown edit)"
+
+
+def clones(obj, rng: np.random.Generator) -> List[Tuple[str, Any]]:
+    """the object itself, a shallow copy, a deep copy and a pickle round trip of it"""
+    with quiet():
+        return [("the result", obj), ("copy.copy(result)", copy.copy(obj)), ("copy.deepcopy(result)", copy.deepcopy(obj)),
+                ("a pickle round trip of the result", pickle.loads(pickle.dumps(obj, protocol=int(rng.integers(2, pickle.HIGHEST_PROTOCOL + 1)))))]
+
+
+def op_dfmut(P: C.Part, cur, case, tag: str, rng: np.random.Generator, names: List[str], ref: Dict[str, Any], done: List[str], arg: str) -> None:
+    """export, let the CALLER edit the frame it got, export again - from the result, a shallow copy, a deep copy and a pickle clone, with a second
+    edit of the second frame in between: every export is exactly the per-bin arrays, every attribute of every clone equals the pristine twin's.
+    arg = "<edit>+<edit>...[@copy]" (forced sequences); "@copy" = the first frame is asked of a shallow copy of the result"""
+    rec = case["recipe"]
+    kind, mode = rec["kind"], ("cross" if cur.iscsd else "auto")
+    body, _, where = str(arg or "").partition("@")
+    hows = [h for h in body.split("+") if h] or [str(h) for h in rng.choice(FRAME_EDITS, size=int(rng.integers(1, 4)), replace=False)]
+    where = where or ("copy" if rng.random() < 0.25 else "self")
+    done.append("dfmut:" + "+".join(hows) + ("@copy" if where == "copy" else ""))
+    hist = f" after [{' '.join(done)}]"
+    with quiet():
+        giver = copy.copy(cur) if where == "copy" else cur
+    df1 = check_dataframe(P, giver, case, tag + hist + " first export", names, ref)
+    if df1 is None:
+        return
+    told: List[str] = []
+
+    def edit(df, how: str) -> None:
+        before = frame_state(df)
+        d = edit_frame(df, rng, how)
+        told.append(d)
+        P.hit(f"dfmut.{how}" + (".refused" if "refused by pandas" in d else ""))
+        if frame_state(df) != before:
+            P.nontrivial.add((kind, mode, "df-edit", how, min(len(ref.get("f")) if isinstance(ref.get("f"), np.ndarray) else 0, 3)))
+        else:
+            P.hit("dfmut.edit-changed-nothing")
+
+    for h in hows:
+        edit(df1, h)
+    frames = [df1]
+    for label, obj in clones(cur, rng):
+        P.hit("dfmut.export")
+        t = (f"{tag}{hist} to_dataframe() of {label}, after the caller edited the frame(s) earlier to_dataframe() calls had returned "
+             f"[{'; '.join(told)}] (an exported frame is the caller's: editing it must not change a later export)")
+        df2 = check_dataframe(P, obj, case, t, names, ref)
+        if df2 is not None and any(df2 is d for d in frames):
+            P.hit("dfmut.same-frame-object-returned-again")
+        if obj is cur and df2 is not None and not any(df2 is d for d in frames):
+            edit(df2, str(rng.choice(FRAME_EDITS)))        # second generation: the later exports follow an edit of THIS frame as well
+            frames.append(df2)
+        if obj is not cur:
+            check_all(P, obj, case, tag, ref, [str(n) for n in rng.permutation(list(ref))], done, label)
+        if len(P.violations) >= MAX_VIOL:
+            return
+
+
+def op_qmut(P: C.Part, cur, case, tag: str, rng: np.random.Generator, ref: Dict[str, Any], done: List[str], arg: str, fgrid: np.ndarray,
+            allnames: List[str]) -> None:
+    """array query, the CALLER overwrites the array it got (and its own query array), the same query again - on the result, a shallow copy, a deep
+    copy and a pickle clone: every answer is the interpolant of the pristine table.  arg = "<name>[:<output edit>[:<query edit>]]" """
+    rec = case["recipe"]
+    kind, mode = rec["kind"], ("cross" if cur.iscsd else "auto")
+    nfg = len(fgrid)
+    parts = str(arg or "").split(":")
+    cand = [n for n in allnames if n != "compute_t" and numeric_table(ref.get(n), nfg) and ref[n].dtype.kind in "fc"]
+    n = parts[0] if parts[0] else (str(rng.choice(cand)) if cand else "")
+    oe = parts[1] if len(parts) > 1 and parts[1] else str(rng.choice(OUT_EDITS))
+    qe = parts[2] if len(parts) > 2 and parts[2] else str(rng.choice(QUERY_EDITS))
+    done.append(f"qmut:{n}:{oe}:{qe}")
+    y = ref.get(n)
+    if not (numeric_table(y, nfg) and y.dtype.kind in "fc"):
+        P.hit("qmut.no-table")
+        return
+    hist = f" after [{' '.join(done)}]"
+    mid = 0.5 * (fgrid[:-1] + fgrid[1:]) if nfg > 1 else np.array([float(fgrid[0]) * 1.01 + 1e-3])
+    pts = np.concatenate([fgrid, mid, [0.5 * float(fgrid[0]), 2.0 * float(fgrid[-1]) + 1.0]])
+    pts = np.array(rng.permutation(pts)[: 24], dtype=float)
+    yr = np.array(np.real(y), dtype=float, copy=True)
+    yi = np.array(np.imag(y), dtype=float, copy=True) if np.iscomplexobj(y) else None
+
+    def ask(obj, label: str, q: Any) -> Any:
+        P.cases += 1
+        try:
+            with quiet():
+                out = obj.get_measurement(q, n)
+        except Exception as ex:  # noqa
+            add_violation(P, f"{tag}{hist} get_measurement(array of {len(pts)}, {n!r}) of {label} raised {ex!r}",
+                          {"check": "measurement", "problem": "raises", "mode": mode, "history": "caller-edit"}, case, {"ops": list(done)})
+            return None
+        if not (isinstance(out, np.ndarray) and out.shape == pts.shape):
+            add_violation(P, f"{tag}{hist} get_measurement(array of shape {pts.shape}, {n!r}) of {label} returned {desc(out)}",
+                          {"check": "measurement", "problem": "shape", "mode": mode, "history": "caller-edit"}, case, {"ops": list(done)})
+            return None
+        for x, ov in zip(pts, out):
+            check_value(P, case, f"{tag}{hist} {label}", n, fgrid, yr, yi, float(x), ov, mode, "caller-edit", kind)
+        return out
+
+    q = np.array(pts, copy=True)
+    out = ask(cur, "the result", q if rng.random() < 0.7 else [float(v) for v in pts])
+    if out is None:
+        return
+    P.hit(f"qmut.out.{oe}")
+    P.hit(f"qmut.query.{qe}")
+    if has_nonfinite(y):
+        P.nontrivial.add((kind, mode, "qmut-nonfinite", n))
+    P.nontrivial.add((kind, mode, "qmut", oe, qe, min(nfg, 3)))
+    with quiet():
+        if out.flags.writeable:
+            if oe == "nan":
+                out[...] = np.nan
+            elif oe == "scale":
+                out *= -3.0
+            elif oe == "zero":
+                out.fill(0)
+            elif oe == "negate":
+                np.negative(out, out=out)
+            elif oe == "reverse":
+                out[...] = out[::-1].copy()
+            elif oe == "sort":
+                out.sort()
+        else:
+            P.hit("qmut.output-not-writable")
+        if qe == "nan":
+            q[...] = np.nan
+        elif qe == "scale":
+            q *= 7.0
+        elif qe == "reverse":
+            q[...] = q[::-1].copy()
+        elif qe == "zero":
+            q.fill(0.0)
+    for label, obj in clones(cur, rng):
+        o2 = ask(obj, label + " (the caller had overwritten the array an earlier get_measurement returned, and its own query array)", np.array(pts, copy=True))
+        if o2 is not None and o2 is out:
+            P.hit("qmut.same-array-object-returned-again")
+        if obj is not cur:
+            check_all(P, obj, case, tag, ref, [str(m) for m in rng.permutation(list(ref))], done, label)
+        if len(P.violations) >= MAX_VIOL:
+            return
+
+
+def op_dirmut(P: C.Part, cur, rng: np.random.Generator, done: List[str]) -> None:
+    """the caller empties / scrambles the list __dir__() handed out (dir(result), which to_dataframe enumerates, is checked by the step check)"""
+    done.append("dirmut")
+    try:
+        lst = type(cur).__dir__(cur)
+    except Exception:  # noqa
+        P.hit("dirmut.raised")
+        return
+    if isinstance(lst, list):
+        if rng.random() < 0.5:
+            lst.clear()
+        else:
+            lst[:] = [x for x in lst if str(x).startswith("_")] + ["mine"]
+        P.hit("dirmut.list-edited")
+    else:
+        P.hit("dirmut.not-a-list")
 
 
 def snapshot(res, names: List[str]) -> Dict[str, Any]:
@@ -1279,6 +1610,15 @@ def check_sequence(P: C.Part, res, twin, case: Dict[str, Any], tag: str, rng: np
                 elif op == "df":
                     done.append(op)
                     check_dataframe(P, cur, case, tag + f" after [{' '.join(done)}]", names, ref_sorted)
+                elif op == "dfmut":
+                    op_dfmut(P, cur, case, tag, rng, names, ref_sorted, done, arg)
+                elif op == "qmut":
+                    if not grid_ok:
+                        P.hit("seq.qmut.no-grid")
+                        continue
+                    op_qmut(P, cur, case, tag, rng, ref_sorted, done, arg, fgrid, allnames)
+                elif op == "dirmut":
+                    op_dirmut(P, cur, rng, done)
                 elif op == "meas":
                     done.append(op)
                     check_measurement(P, cur, case, tag + f" after [{' '.join(done)}]", rng, ref_sorted, light=True, names=allnames)
@@ -1433,6 +1773,17 @@ def corpus() -> List[Tuple[Dict[str, Any], int, List[str]]]:
                      "copy", "plot:which=coh,errors=True,sigma=0.5", "query:Hxy_rad_error", "pickle:4", "read:Hxy_deg_error"]))
     out.append(({"fn": "compute_spectrum", "kind": "corpus-C10g", "iscsd": False, "fs": 1.0, "data": x, "kw": {"Jdes": 15, "Kdes": 3}},
                 12, ["plot:which=asd,errors=True,sigma=3", "rms:inside", "read:asd", "plot:which=bode,errors=True,sigma=2", "repr", "len", "dir", "rms:grid", "df"]))
+    # seeded defect C20h (to_dataframe() memoised the frame in the lazy cache and handed THE SAME mutable object to every later call; copy.copy shares
+    # the cache dictionary, deepcopy / pickle carry the frame along): export, the caller converts units / drops a column / overwrites a row / re-indexes
+    # its frame, export again - of the result and of its copies; auto and cross, full and single-bin; get_measurement outputs likewise
+    out.append(({"fn": "compute_spectrum", "kind": "corpus-C20h", "iscsd": False, "fs": 1.0, "data": x, "kw": {"Jdes": 15, "Kdes": 3}},
+                13, ["df", "dfmut:scale+drop", "copy", "df", "pickle:4", "df", "qmut:asd:scale:nan"]))
+    out.append(({"fn": "compute_spectrum", "kind": "corpus-C20h", "iscsd": True, "fs": 2.0, "data": xy, "kw": {"Jdes": 20, "Kdes": 5, "order": 0, "win": "hann"}},
+                14, ["dfmut:scale-inplace+rename@copy", "df", "deepcopy", "dfmut:row0+index", "qmut:Hxy:nan:reverse", "df"]))
+    out.append(({"fn": "compute_single_bin", "kind": "corpus-C20h", "iscsd": False, "fs": 2.0, "data": x, "freq": 0.3, "sb": {"L": 64}, "kw": {}},
+                15, ["dfmut:scale+drop", "pickle:2", "dfmut:values+iloc-col", "df"]))
+    out.append(({"fn": "compute_single_bin", "kind": "corpus-C20h", "iscsd": True, "fs": 2.0, "data": xy.T.copy(), "freq": 0.25, "sb": {"fres": 2.0 / 32}, "kw": {"order": 1}},
+                16, ["read:cf", "dfmut:swap-names+del", "copy", "dfmut:all-zero@copy", "qmut:cf:zero:keep", "df"]))
     return out
 
 
@@ -2290,6 +2641,27 @@ def oracle(ctx, intensive: bool = False, hints: List[Dict[str, Any]] = ()) -> C.
             run_case(P, rec, seed, names, plots=PLOTS_CROSS if cross else PLOTS_AUTO, phase=n_cross % 8)
             n_cross += int(bool(cross))
             P.hit("plot-stream")
+    # the caller-edit stream: every result class x every kind of in-place edit of an exported frame (each run goes through all of FRAME_EDITS), the
+    # first frame asked of the result or of a shallow copy, get_measurement outputs overwritten, mixed into random sequences of the other operations
+    basic = [o for o in OPS if o not in ("dfmut", "qmut")]
+    for rep_ in range(ctx.scale(1, 6) * (2 if intensive else 1)):
+        edits = [str(e) for e in ctx.rng.permutation(FRAME_EDITS)]
+        for idx, (kind, cross) in enumerate(EDIT_STREAM):
+            if ctx.time_left() < 60 or len(P.violations) >= MAX_VIOL:
+                break
+            kind = kind or str(ctx.rng.choice(["band", "equalK-band", "fake", "edge", "dead"]))
+            try:
+                with quiet():
+                    rec = gen_recipe(ctx.rng, kind, cross)
+            except LIBERR as ex:  # noqa
+                P.hit(f"recipe-failed.{kind}.{type(ex).__name__}")
+                continue
+            e = [edits[(4 * idx + j) % len(edits)] for j in range(4)]
+            ops = [str(o) for o in ctx.rng.choice(basic, size=int(ctx.rng.integers(2, 6)))]
+            for ins in (f"dfmut:{e[0]}+{e[1]}" + ("@copy" if idx % 3 == 2 else ""), f"dfmut:{e[2]}+{e[3]}", "qmut"):
+                ops.insert(int(ctx.rng.integers(0, len(ops) + 1)), ins)
+            run_case(P, rec, int(ctx.rng.integers(0, 2 ** 31 - 1)), names, ops)
+            P.hit("edit-stream")
     n = ctx.scale(200, 3000) * (4 if intensive else 1)
     for i in range(n):
         if ctx.time_left() < 20:
